@@ -14,6 +14,15 @@ META = {
 NUM = "chempy.printing.numbers"
 
 
+def _attempt(thunk):
+    """the value of the code under test, or the exception it raised (never equal to an expected text): data harnesses turn an exception of the
+    code into a failed obligation instead of a checker error"""
+    try:
+        return thunk()
+    except Exception as ex:
+        return ex
+
+
 @harness("C20", "roman.exhaustive", functions=[NUM + ":roman"], kind="data")
 def _(v):
     from chempy.printing.numbers import roman
@@ -29,9 +38,10 @@ def _(v):
                 tot += x
         return tot
     canonical = re.compile(r"M{0,3}(CM|CD|D?C{0,3})(XC|XL|L?X{0,3})(IX|IV|V?I{0,3})")
-    bad = [n for n in range(1, 4000) if read(roman(n)) != n or not canonical.fullmatch(roman(n))]
-    v.prove("denotes_its_integer_1_to_3999", not bad, "first failures %s" % bad[:5])
-    v.prove("distinct", len({roman(n) for n in range(1, 4000)}) == 3999)
+    texts = {n: _attempt(lambda: roman(n)) for n in range(1, 4000)}   # a refusal inside the domain is a failed obligation, not a checker error
+    bad = [n for n, t in texts.items() if not isinstance(t, str) or not canonical.fullmatch(t) or read(t) != n]
+    v.prove("denotes_its_integer_1_to_3999", not bad, "first failures %s" % [(n, texts[n]) for n in bad[:5]])
+    v.prove("distinct", len({t for t in texts.values() if isinstance(t, str)}) == 3999)
 
 
 def _pow10(fmt_name, significand):
@@ -71,27 +81,38 @@ for _f in ("_latex_pow_10", "_html_pow_10"):
 
 @harness("C20", "pow10.exhaustive_exponents", functions=[NUM + ":_latex_pow_10", NUM + ":_unicode_pow_10", NUM + ":_html_pow_10"], kind="data")
 def _(v):
+    """'significand times ten to the exponent, the significand omitted only when it is exactly 1': every exponent text %g can produce, with
+    significands that are 1 ('1', '1.0': omitted), that are 1 in a longer spelling ('1.00': omitted or not, both denote the value), and that are NOT 1
+    however close (-1, 1.0001, 1.0000004, 1.000000001, 0.9999999: must be kept, dropping them changes the value).  The exponent is printed as the
+    integer it denotes (no '+', no leading zeros) in all three media alike."""
     from chempy.printing import numbers as N
     sup = {"0": "⁰", "1": "¹", "2": "²", "3": "³", "4": "⁴", "5": "⁵", "6": "⁶", "7": "⁷", "8": "⁸", "9": "⁹", "-": "⁻", "+": "⁺"}
-    unsup = {b: a for a, b in sup.items()}
+    omitted = ("1", "1.0")
+    either = ("1.00",)      # exactly 1 as well: an implementation comparing the VALUE with 1 omits it, one comparing the text keeps it
+    kept = ("2.5", "-1", "-1.0", "9.9999", "1.0001", "1.0000004", "1.000000001", "-1.0000004", "0.9999999")
     bad = []
     n = 0
     for e in range(-330, 331):
         for mant in {"%+03d" % e, "%d" % e, "%+d" % e}:
-            for sig in ("1", "1.0", "2.5", "-1", "-1.0", "9.9999", "1.00"):
+            for sig in omitted + either + kept:
                 n += 1
-                omit = sig in ("1", "1.0")
-                lat = N._latex_pow_10(sig, mant)
-                htm = N._html_pow_10(sig, mant)
-                uni = N._unicode_pow_10(sig, mant)
-                ok = lat == ("" if omit else sig + r"\cdot ") + "10^{%d}" % e
-                ok = ok and htm == ("" if omit else sig + "&sdot;") + "10<sup>%d</sup>" % e
-                head = "" if omit else sig + "·"
-                ok = ok and uni.startswith(head + "10") and int("".join(unsup[c] for c in uni[len(head) + 2:])) == e
+                try:
+                    got = (N._latex_pow_10(sig, mant), N._html_pow_10(sig, mant), N._unicode_pow_10(sig, mant))
+                except Exception as ex:
+                    bad.append((sig, mant, repr(ex)))
+                    continue
+                tens = ("10^{%d}" % e, "10<sup>%d</sup>" % e, "10" + "".join(sup[c] for c in "%d" % e))
+                with_sig = tuple(sig + dot + t for dot, t in zip((r"\cdot ", "&sdot;", "·"), tens))
+                if sig in omitted:
+                    ok = got == tens
+                elif sig in kept:
+                    ok = got == with_sig
+                else:
+                    ok = all(g in (t, w) for g, t, w in zip(got, tens, with_sig))
                 if not ok:
-                    bad.append((sig, mant, lat, htm, uni))
+                    bad.append((sig, mant) + got)
     v.prove("all_exponents_and_significands", not bad, "first %s" % bad[:2])
-    v.prove("count", n >= 661 * 7)
+    v.prove("count", n >= 661 * 12)
     from chempy.util.parsing import _unicode_sup
     v.prove("superscript_table_is_unicode", all(_unicode_sup[k] == sup[k] for k in "0123456789-+"))
 
@@ -169,7 +190,9 @@ def _(v):
     US = z3.Function("uncert_str", z3.RealSort(), z3.RealSort(), z3.IntSort(), z3.StringSort())
     flt = US(mag.e, umag.e, z3.IntVal(2))
     has_e = z3.Contains(flt, z3.StringVal("e"))
-    v.prove("magnitude_and_uncertainty_converted_to_the_shown_unit", [a for a, b in seen["to_unitless"]] == [x, dx] and all(b is unit for a, b in seen["to_unitless"]))
+    # (which of the two is converted first, and whether one is converted more than once, is no part of the property: contents, not sequence;
+    #  that the texts shown come from the CONVERTED values is in `flt = US(mag, umag, 2)` below)
+    v.prove("magnitude_and_uncertainty_converted_to_the_shown_unit", {id(a) for a, b in seen.get("to_unitless", [])} == {id(x), id(dx)} and all(b is unit for a, b in seen["to_unitless"]))
     # both directions: an exponent form is split exactly once at its 'e' and handed to the power-of-ten renderer; a plain form is shown verbatim;
     # in both cases the unit follows the separator
     if calls:
@@ -203,12 +226,52 @@ def _(v):
     v.prove("without_param", v.call(p._print_Reaction, rxn2, with_param=False) == "A -> B")
 
 
+@harness("C20", "uncertainty_notation.quantifier_edges", functions=[NUM + ":_float_str_w_uncert"], kind="data")
+def _(v):
+    """'a value printed with its uncertainty in parenthesis notation denotes the value rounded at the uncertainty's last kept digit and the uncertainty to
+    the requested digits' at the corners of the quantifier (+-300 decades, up to 10 digits, uncertainty down to 1e-8 relative), where the last kept digit
+    lies below the smallest normal double or the scaled value above 1e300: the text NNN.NN(UU)[eXX] is read back exactly (Fractions, nothing of
+    chempy): UU counts units q of the last printed digit of NNN.NN, q is the place of the p-th significant digit of the uncertainty, the uncertainty
+    is within q/2 of UU*q and the value within q/2 of NNN.NN (each + 1e-12 relative for the double arithmetic).  The bulk of the domain is sampled by
+    the bounded stand-in; a refusal (OverflowError) inside the quantifier is a failed obligation."""
+    from fractions import Fraction
+    from chempy.printing.numbers import _float_str_w_uncert
+    pat = re.compile(r"(-?)(\d+)(?:\.(\d+))?\((\d+)\)(?:e([-+]?\d+))?")
+    cases = [(1e-299, 1e-301, 10), (3e-300, 3e-308, 2), (-2.5e-300, 5e-307, 3), (2.5e300, 5e298, 2), (-7.25e299, 3.6e292, 10), (6.02e23, 1.2e16, 2), (1.2343e-5, 1.2e-7, 2)]
+    bad = []
+    for x, dx, p in cases:
+        t = _attempt(lambda: _float_str_w_uncert(x, dx, p))
+        m = pat.fullmatch(t) if isinstance(t, str) else None
+        if not m:
+            bad.append((x, dx, p, t))
+            continue
+        sign, whole, frac, unc, e = m.groups()
+        scale = Fraction(10) ** int(e or 0)
+        q = Fraction(1, 10 ** len(frac or "")) * scale                      # one unit of the last printed digit
+        val = (-1 if sign else 1) * Fraction(int(whole + (frac or "")), 10 ** len(frac or "")) * scale
+        X, DX = Fraction(x), Fraction(dx)                                   # the doubles, exactly
+        lead = Fraction(10) ** (len(str(int(DX))) - 1) if DX >= 1 else Fraction(1, 10 ** next(k for k in range(1, 400) if DX * 10 ** k >= 1))
+        place = lead / 10 ** (p - 1)                                        # place of the p-th significant digit of the uncertainty
+        tol = 1 + Fraction(1, 10 ** 12)
+        # (a printed uncertainty may be a multiple of 10 units when the plain layout pads with zeros: '2000(250)'; then q < place and UU*q counts the same)
+        ok = q <= place and (place / q).denominator == 1 and int(unc) % (place / q) == 0 and val % place == 0
+        ok = ok and abs(int(unc) * q - DX) <= place / 2 * tol + abs(DX) * (tol - 1) and abs(val - X) <= place / 2 * tol + abs(X) * (tol - 1)
+        if not ok:
+            bad.append((x, dx, p, t))
+    v.prove("value_and_uncertainty_read_back", not bad, detail=repr(bad[:3]))
+
+
 @harness("C20", "public_wrappers", functions=[NUM + ":number_to_scientific_latex", NUM + ":number_to_scientific_unicode", NUM + ":number_to_scientific_html"], kind="data")
 def _(v):
     """the three public functions, each with ITS renderer, separator and unit formatter: expected texts written by hand from the notation
     (significand, then 'times ten to the exponent' in that medium, '1 x' omitted only for a POSITIVE unit significand, unit after the separator,
-    uncertainty in parentheses before the power of ten)"""
+    uncertainty in parentheses before the power of ten).  All inputs are chosen clear of rounding ties (the digits dropped are never a 5 followed by
+    zeros, as decimal numerals and as doubles), so that the texts do not depend on how a tie of the double arithmetic falls."""
     from chempy.printing.numbers import number_to_scientific_latex as L, number_to_scientific_unicode as U, number_to_scientific_html as H
+    LUH = (L, U, H)
+
+    def three(*args, **kw):
+        return tuple(_attempt(lambda: f(*args, **kw)) for f in LUH)
     table = [
         (2e10, "2\\cdot 10^{10}", "2·10¹⁰", "2&sdot;10<sup>10</sup>"),
         (1e-17, "10^{-17}", "10⁻¹⁷", "10<sup>-17</sup>"),
@@ -216,50 +279,143 @@ def _(v):
         (123456.0, "1.2346\\cdot 10^{5}", "1.2346·10⁵", "1.2346&sdot;10<sup>5</sup>"),
         (3.14159, "3.1416", "3.1416", "3.1416"),
         (-0.0025, "-0.0025", "-0.0025", "-0.0025"),
-        (0.0, "0", "0", "0"),
     ]
-    bad = [(x, f.__name__, f(x)) for x, *want in table for f, w in zip((L, U, H), want) if f(x) != w]
+    bad = [(x, got) for x, *want in table for got in [three(x)] if got != tuple(want)]
+    # zero is outside the quantifier ('non-zero floats'): only asked to be shown as a plain number that reads back as zero ('0', '0.0', '-0' ...)
+    zero = three(0.0)
+    bad += [(0.0, t) for t in zero if not (isinstance(t, str) and re.fullmatch(r"-?\d+(\.\d*)?", t) and float(t) == 0)]
     v.prove("plain_numbers", not bad, detail=repr(bad))
-    v.prove("requested_digits", (L(2.345e10, fmt=2), U(2.345e10, fmt=2), H(2.345e10, fmt=2)) == ("2.3\\cdot 10^{10}", "2.3·10¹⁰", "2.3&sdot;10<sup>10</sup>")
-            and U(1.23456789e-3, fmt=8) == "0.0012345679" and U(7.0, fmt=1) == "7")
-    v.prove("uncertainty_before_the_power_of_ten", (L(1.2345e-5, 1.2e-7), U(1.2345e-5, 1.2e-7), H(1.2345e-5, 1.2e-7)) ==
-            ("1.234(12)\\cdot 10^{-5}", "1.234(12)·10⁻⁵", "1.234(12)&sdot;10<sup>-5</sup>"))
-    try:
+    v.prove("requested_digits", three(2.345e10, fmt=2) == ("2.3\\cdot 10^{10}", "2.3·10¹⁰", "2.3&sdot;10<sup>10</sup>")
+            and _attempt(lambda: U(1.23456789e-3, fmt=8)) == "0.0012345679" and _attempt(lambda: U(7.0, fmt=1)) == "7")
+    # a significand that is not exactly 1 is never omitted, however close (1.0000004 x 10^12 is not 10^12 to the 8 digits asked for)
+    near = (three(1.0000004e12, fmt=8), three(-1.0000004e12, fmt=8), three(1.0001e-9))
+    v.prove("significand_near_one_is_kept", near == (("1.0000004\\cdot 10^{12}", "1.0000004·10¹²", "1.0000004&sdot;10<sup>12</sup>"),
+                                                     ("-1.0000004\\cdot 10^{12}", "-1.0000004·10¹²", "-1.0000004&sdot;10<sup>12</sup>"),
+                                                     ("1.0001\\cdot 10^{-9}", "1.0001·10⁻⁹", "1.0001&sdot;10<sup>-9</sup>")), detail=repr(near))
+    # 1.2343e-5 +- 1.2e-7 to two digits of uncertainty: the uncertainty is 12 units of 1e-8, the value 1234.3 -> 1234 of them
+    got = three(1.2343e-5, 1.2e-7)
+    v.prove("uncertainty_before_the_power_of_ten", got == ("1.234(12)\\cdot 10^{-5}", "1.234(12)·10⁻⁵", "1.234(12)&sdot;10<sup>-5</sup>"), detail=repr(got))
+    # 'the uncertainty to the requested digits': an integer fmt together with an uncertainty is the number of digits kept of the UNCERTAINTY
+    # (one digit: 1 unit of 1e-7, the value 123.43 -> 123 of them; three digits: 120 units of 1e-9, the value 12343 of them)
+    got = (three(1.2343e-5, 1.2e-7, fmt=1), three(1.2343e-5, 1.2e-7, fmt=3))
+    v.prove("requested_digits_of_the_uncertainty", got == (("1.23(1)\\cdot 10^{-5}", "1.23(1)·10⁻⁵", "1.23(1)&sdot;10<sup>-5</sup>"),
+                                                            ("1.2343(120)\\cdot 10^{-5}", "1.2343(120)·10⁻⁵", "1.2343(120)&sdot;10<sup>-5</sup>")), detail=repr(got))
+    try:   # (the import is the code under test too: a failure of it is a failed obligation, not a silently skipped one)
+        import quantities as pq
         from chempy.units import default_units as u
         q = 3e5 * u.m / u.s
-        v.prove("unit_after_the_number", (L(q), U(q), H(q)) == ("3\\cdot 10^{5}\\,\\mathrm{\\frac{m}{s}}", "3·10⁵ m/s", "3&sdot;10<sup>5</sup> m/s")
-                and U(1500 * u.m, unit=u.km) == "1.5 km" and U(2.0 * u.km, 0.25 * u.km, unit=u.m) == "2000(250) m")
-    except ImportError:
-        pass
+        got = (three(q), _attempt(lambda: U(1500 * u.m, unit=u.km)), _attempt(lambda: U(2.0 * u.km, 0.25 * u.km, unit=u.m)))
+        v.prove("unit_after_the_number", got == (("3\\cdot 10^{5}\\,\\mathrm{\\frac{m}{s}}", "3·10⁵ m/s", "3&sdot;10<sup>5</sup> m/s"), "1.5 km", "2000(250) m"), detail=repr(got))
+        # exponent form, uncertainty and unit together: parenthesis notation, then the power of ten, then the separator and the unit
+        got = three(1.2343e-5 * u.m, 1.2e-7 * u.m)
+        v.prove("uncertainty_then_power_of_ten_then_unit", got == ("1.234(12)\\cdot 10^{-5}\\,\\mathrm{m}", "1.234(12)·10⁻⁵ m", "1.234(12)&sdot;10<sup>-5</sup> m"), detail=repr(got))
+        # a value that carries its own uncertainty (quantities.UncertainQuantity) is 'a value printed with its uncertainty' too: 2.00 +- 0.25 km is
+        # 25 units of 0.01 km; in metres 25 units of 10 m ('2000(250)', 9 characters, is shorter than '2.00(25)e3'); to one digit the uncertainty
+        # 0.25 is a tie between 2 and 3 units of 0.1 km, either is accepted
+        uq = pq.UncertainQuantity(2.0, u.km, 0.25)
+        got = (_attempt(lambda: U(uq)), _attempt(lambda: U(uq, unit=u.m)), _attempt(lambda: H(uq, fmt=1)), _attempt(lambda: L(uq)))
+        v.prove("uncertainty_carried_by_the_value_is_printed", got[:2] == ("2.00(25) km", "2000(250) m") and got[2] in ("2.0(2) km", "2.0(3) km")
+                and got[3] == "2.00(25)\\,\\mathrm{km}", detail=repr(got))
+    except Exception as ex:
+        v.prove("unit_after_the_number", False, detail="units could not be set up: %r" % (ex,))
+
+
+_SUPER = {"⁰": "0", "¹": "1", "²": "2", "³": "3", "⁴": "4", "⁵": "5", "⁶": "6", "⁷": "7", "⁸": "8", "⁹": "9", "⁻": "-", "⁺": "+"}
+
+
+def _unit_factors(text, medium):
+    r"""reads a printed compound unit back as {symbol: power} (numerator positive, denominator negative), None if the text is not a unit in the notation
+    of that medium.  Written from the notations, not from the code: plain 'm**3/(s*mol)', unicode 'm³/(s·mol)', html either of the plain notation or
+    <sup>3</sup> / &sdot; markup, latex '$\mathrm{\frac{m^{3}}{(s{\cdot}mol)}}$' (\left( \right) and \cdot without braces accepted, % only as \%).
+    The ORDER of the factors (a matter of the units package) and 's**-1' against '1/s' are no part of 'shows the unit': 1/(s*M) and 1/(M*s) read alike."""
+    t = text
+    if medium == "latex":
+        m = re.fullmatch(r"\$\\mathrm\{(.*)\}\$", t)
+        if not m or re.search(r"(?<!\\)%", t) or "*" in t or "/" in t:
+            return None
+        t = m.group(1).replace("\\left(", "(").replace("\\right)", ")").replace("{\\cdot}", "*")
+        t = re.sub(r"\\cdot\s*", "*", t)
+        t = re.sub(r"\^\{(-?\d+)\}|\^(\d)", lambda k: "**" + (k.group(1) or k.group(2)), t).replace("\\%", "%")
+        m = re.fullmatch(r"\\frac\{([^{}]*)\}\{([^{}]*)\}", t)
+        if m:
+            t = "%s/(%s)" % (m.group(1), m.group(2).strip("()")) if "(" not in m.group(2).strip("()") else None
+        if t is None or "\\" in t or "{" in t or "}" in t:
+            return None
+    elif medium == "unicode":
+        if "*" in t or "<" in t or "&" in t:
+            return None
+        t = re.sub("[%s]+" % "".join(_SUPER), lambda k: "**" + "".join(_SUPER[c] for c in k.group(0)), t).replace("·", "*")
+    elif medium == "html":
+        t = re.sub(r"<sup>(-?\d+)</sup>", lambda k: "**" + k.group(1), t).replace("&sdot;", "*").replace("&middot;", "*").replace("·", "*")
+    m = re.fullmatch(r"(?P<num>[^/()]+|\([^/()]+\))(/(?P<den>[^/()]+|\([^/()]+\)))?", t)
+    if not m:
+        return None
+    out = {}
+    for side, sign in ((m.group("num"), 1), (m.group("den"), -1)):
+        if side is None or side.strip("()") == "1":
+            continue
+        if sign < 0 and "*" in side.replace("**", "") and not side.startswith("("):
+            return None    # 'a/b*c' does not say whether c is divided by
+        for factor in re.split(r"(?<!\*)\*(?!\*)", side.strip("()")):
+            k = re.fullmatch(r"([^\W\d_]+|%)(\*\*([-+]?\d+))?", factor)
+            if not k or k.group(1) in out:
+                return None
+            out[k.group(1)] = sign * int(k.group(3) or 1)
+    return out
 
 
 @harness("C20", "reaction_parameter_with_a_real_unit", functions=["chempy.printing.string:StrPrinter._Reaction_param_str", "chempy.printing.string:StrPrinter._print_Reaction"], kind="data")
 def _(v):
     """'a reaction printed with its parameter shows that parameter's magnitude and unit' on quantities of the real units package, also for units that
     simplify to a pure number but carry a scale (percent, mM/M, g/kg): the magnitude is only meaningful together with the unit it is expressed in,
-    so the unit must be there in all four formats (hand-written texts)"""
+    so in all four formats the text is: the reaction, the separator, the magnitude in that medium's notation (hand-written: %.3g for the plain
+    printer, five digits and 'significand times ten to the exponent' markup for the others), one blank, and the unit (read back as a multiset of
+    powers of symbols by _unit_factors); nothing else, so neither a rescaled magnitude (0.05 %, 3000 mM/M), nor a lost factor or power of a compound
+    unit, nor a unit printed twice passes.  A plain float parameter is its magnitude alone."""
     import warnings
     from chempy.chemistry import Equilibrium, Reaction
     from chempy.units import default_units as u
-    table = [(5 * u.percent, "5 %", "5 %", "%"), (3 * u.mM / u.M, "3 mM/M", "3 mM/M", "mM"), (4 * u.g / u.kg, "4 g/kg", "4 g/kg", "kg"),
-             (2.5 / u.M / u.s, "2.5 1/(s*M)", "2.5 1/(s·M)", "s"), (1.5e-3 * u.m ** 3 / u.mol / u.s, "0.0015 m**3/(s*mol)", "0.0015 m³/(s·mol)", "mol")]
+    same = lambda t: (t, t, t, t)   # noqa: E731
+    table = [   # parameter, magnitude as (plain, unicode, html, latex), unit
+        (5 * u.percent, same("5"), {"%": 1}), (3 * u.mM / u.M, same("3"), {"mM": 1, "M": -1}), (4 * u.g / u.kg, same("4"), {"g": 1, "kg": -1}),
+        (2.5 / u.M / u.s, same("2.5"), {"M": -1, "s": -1}), (1.5e-3 * u.m ** 3 / u.mol / u.s, same("0.0015"), {"m": 3, "mol": -1, "s": -1}),
+        # magnitudes in exponent form: here magnitude_fmt = number_to_scientific_X has something to do (significand omitted for exactly 1)
+        (3e10 / u.s, ("3e+10", "3·10¹⁰", "3&sdot;10<sup>10</sup>", "3\\cdot 10^{10}"), {"s": -1}),
+        (1e-7 / u.s, ("1e-07", "10⁻⁷", "10<sup>-7</sup>", "10^{-7}"), {"s": -1}),
+        (-2.5e-12 * u.m ** 3 / u.mol / u.s, ("-2.5e-12", "-2.5·10⁻¹²", "-2.5&sdot;10<sup>-12</sup>", "-2.5\\cdot 10^{-12}"), {"m": 3, "mol": -1, "s": -1}),
+        (1e10, ("1e+10", "10¹⁰", "10<sup>10</sup>", "10^{10}"), None), (2.5e-3, same("0.0025"), None),
+    ]
+    media = ("plain", "unicode", "html", "latex")
     bad = []
     with warnings.catch_warnings():
         warnings.simplefilter("ignore")
         for cls, arrows in ((Equilibrium, ("=", "⇌", "&harr;", "\\rightleftharpoons")), (Reaction, ("->", "→", "&rarr;", "\\rightarrow"))):
-            for q, plain, uni, token in table:
-                r = cls({"A": 1}, {"B": 1}, q, checks=())
-                got = (r.string(with_param=True), r.unicode({}, with_param=True), r.html({}, with_param=True), r.latex({}, with_param=True))
-                if got[0] != "A %s B; %s" % (arrows[0], plain) or got[1] != "A %s B; %s" % (arrows[1], uni):
-                    bad.append((str(q), got[:2]))
-                mag = plain.split(" ")[0]
-                for g, a in zip(got[2:], arrows[2:]):
-                    head, _, tail = g.partition(a + " B")
-                    if head != "A " or mag not in tail or token not in tail.split(mag, 1)[1]:
-                        bad.append((str(q), g))
+            for q, mags, unit in table:
+                try:
+                    r = cls({"A": 1}, {"B": 1}, q, checks=())
+                    got = (r.string(with_param=True), r.unicode({}, with_param=True), r.html({}, with_param=True), r.latex({}, with_param=True))
+                except Exception as ex:
+                    bad.append((str(q), repr(ex)))
+                    continue
+                for g, a, mag, medium in zip(got, arrows, mags, media):
+                    seps = ("&#59; ", "; ") if medium == "html" else ("; ",)
+                    tails = [g[len("A %s B%s" % (a, sep)):] for sep in seps if g.startswith("A %s B%s" % (a, sep))]
+                    if unit is None:
+                        ok = tails == [mag]
+                    else:
+                        ok = len(tails) == 1 and tails[0].startswith(mag + " ") and _unit_factors(tails[0][len(mag) + 1:], medium) == unit
+                    if not ok:
+                        bad.append((str(q), medium, g))
     v.prove("magnitude_and_unit_in_all_four_formats", not bad, detail=repr(bad[:3]))
+    # the reader of units itself: what it must tell apart (texts the earlier substring test let through) and what it must not
+    UF = _unit_factors
+    v.prove("unit_reader_sanity", UF("1/(s*M)", "plain") == UF("1/(M*s)", "plain") == UF("1/(s·M)", "unicode") == UF("$\\mathrm{\\frac{1}{(s{\\cdot}M)}}$", "latex") == {"s": -1, "M": -1}
+            and UF("m**3/(s*mol)", "html") == UF("m<sup>3</sup>/(s&sdot;mol)", "html") == UF("m³/(mol·s)", "unicode") == UF("$\\mathrm{\\frac{m^{3}}{\\left(mol{\\cdot}s\\right)}}$", "latex") == {"m": 3, "s": -1, "mol": -1}
+            and UF("1/s", "plain") == UF("s**-1", "plain") == {"s": -1} and UF("%", "plain") == UF("$\\mathrm{\\%}$", "latex") == {"%": 1}
+            and UF("dimensionless", "plain") == {"dimensionless": 1} != UF("1/s", "plain") and UF("1/mol", "plain") != UF("m**3/(s*mol)", "plain")
+            and UF("$\\mathrm{%}$", "latex") is None and UF("m**3/(s*mol)", "unicode") is None and UF("1/s 1/s", "plain") is None and UF("", "plain") is None)
     # 'the unit rendered after it' in LaTeX: a bare % starts a TeX comment and swallows the closing brace, so it is no rendering of the unit
-    import re
     from chempy.printing.numbers import number_to_scientific_latex
-    texts = [number_to_scientific_latex(5 * u.percent), number_to_scientific_latex(50 * u.percent, 5 * u.percent), Reaction({"A": 1}, {"B": 1}, 5 * u.percent, checks=()).latex({}, with_param=True)]
-    v.prove("percent_is_escaped_in_latex", all("%" in t and re.search(r"(?<!\\)%", t) is None for t in texts), detail=repr(texts))
+    texts = [_attempt(lambda: number_to_scientific_latex(5 * u.percent)), _attempt(lambda: number_to_scientific_latex(50 * u.percent, 5 * u.percent)),
+             _attempt(lambda: Reaction({"A": 1}, {"B": 1}, 5 * u.percent, checks=()).latex({}, with_param=True))]
+    v.prove("percent_is_escaped_in_latex", all(isinstance(t, str) and "%" in t and re.search(r"(?<!\\)%", t) is None for t in texts), detail=repr(texts))
